@@ -20,9 +20,14 @@ from checks import C17 as sockchk
 MODULE = "Nice.Props.C16"
 THEOREMS = [f"Nice.Props.C16.{t}" for t in (
     "C16_wrap_decodes", "C16_channeldata_decodes", "C16_unwrap_inverse", "C16_unwrap_channeldata",
-    "C16_held_not_lost", "C16_timeout_flushes", "C16_queue_fifo", "C16_recv_no_fault")]
+    "C16_held_not_lost", "C16_timeout_flushes", "C16_queue_fifo", "C16_recv_no_fault")] + [
+    "Nice.Props.C16Send.C16_no_send_without_permission", "Nice.Props.C16Send.analysis_ok"]
 TRUSTED = [
     "Lean 4 kernel; axioms propext, Classical.choice, Quot.sound only (audited every run)",
+    "Nice/Gen/TurnSend.lean: skeleton of socket/udp-turn.c socket_send_message REGENERATED from the source on every run "
+    "(tools/extract_flow.py; tracked: priv->compatibility, the answer of priv_has_permission_for_peer; marked: what leaves through the "
+    "base socket towards the relay / straight to the peer, what is queued): C16_no_send_without_permission holds for every execution "
+    "of it (Nice/Model/Flow.lean)",
     "hand-written model Nice/Model/Turn.lean (DRAFT9 / RFC5766, unreliable base) tied to socket/udp-turn.c by the sock_drv `sock turn` "
     "differential stream, incl. request timers on the virtual clock and the GOOGLE Send-request encoding; MSN / OC2007 encodings (HMAC), the GOOGLE channel lock, "
     "the reliable (TURN-over-TCP) re-framing and the 240 s / 540 s refresh timers are outside the model",
